@@ -18,6 +18,7 @@ Definition report : list (string * bool) :=
     ("no_peer_close_in_shared_server", no_peer_close_in_shared_server gen_funcs);
     ("skeleton_conforms", skeleton_conforms gen_funcs gen_submitters);
     ("closable_senders_covered", closable_senders_covered gen_funcs);
+    ("invocation_drops_cancel_timer", invocation_drops_cancel_timer gen_invocation_drops);
     ("yield_retry_keeps_invocation", yield_retry_keeps_invocation gen_yield_retry_keeps_invocation) ].
 
 Definition REPORT := report.
@@ -51,3 +52,6 @@ Eval vm_compute in RETRY_TOTAL_MS.
 
 Definition YIELD_RESUME_TABLE := yield_resume_table gen_yield_retry_delay_ms gen_send_result_deadline_ms.
 Eval vm_compute in YIELD_RESUME_TABLE.
+
+Definition BAD_INVOCATION_DROPS := bad_invocation_drops gen_invocation_drops.
+Eval vm_compute in BAD_INVOCATION_DROPS.
